@@ -87,6 +87,21 @@ CHECKS = {
             "Every observation (arrays, written files, static table after re-filling, `cij run` output) of every process must carry the digest of the single fresh reference run of its configuration, the shared module state must never change, and other live calculators must be untouched after every action; histories include two different calculations interleaved in both orders, repeated reads/writes, seeds 0/1/2/random and three working-directory variants.",
             "Trusted: SHA-256 digests stand for byte identity; the re-filled static table is compared to nine significant digits; shared state = writer rules + unit conversions.",
             "DESIGN.md section 4 C14"),
+    "C17": ("model_checking",
+            "TLC runs the input01 reader state machine (spec/Formats.tla) on every small document and checks Read(Write(d)) = d, weight pairing, no error, termination; the specification's documents are read by the real reader and the real writer's files are run through the specification's reader machine by TLC; random round trips, static tables, `cij fill` round trip",
+            "Both directions are bound: spec documents -> read_energy (parse equals the TLC-exported expectation), write_energy output -> tokenised -> TLC reader machine (RoundTrip invariant). Plus 20/300 random data sets (1-12 x 1-10 x 3-60, either sign, to 1e5) to the written precision, 30/400 static tables with random column order/prefix/case/lattice block, and the fill command for nine systems.",
+            "Trusted: the independent renderer/tokeniser of the harness; 'written precision' = half a unit of the last printed digit; fill payloads <= 4 decimals.",
+            "DESIGN.md section 4 C17"),
+    "C19": ("model_checking",
+            "TLC enumerates every extraction (grids of 2-4 nodes, spacings 1/2/5, tie-free requests, both orientations, 1-3 variables) with invariants NearestIsNearest / OwnVariable / Orientation (spec/Extract.tla); enumerated cases replayed through `cij extract` on coordinate-encoding tables; extract-geotherm node identity, pass-through, refinement",
+            "8 580 extraction cases decided by TLC; a random 400 (quick) / all (thorough) replayed through the command line on tables whose entries encode (variable, iT, iP), so a neighbouring index, a transposed axis or the wrong file shows in the number; decoy files present. Geotherm: node identity to the printed precision, pass-through columns, error decreasing under grid refinement.",
+            "Trusted: ties are not generated; pandas prints six significant digits (node identity 1e-5); convergence is a float experiment.",
+            "DESIGN.md section 4 C19"),
+    "C20": ("model_checking",
+            "TLC runs the greedy assignment machine (spec/EvecSort.tla) on every 2x2 (entries 0..3) and 3x3 (entries 0..2) overlap matrix with invariants DominantRecovered / PermutationUnlessZero; all 19 939 matrices replayed through evec_sort; constructed unitary cases to n=60; evec_disp2eig; matdyn files laid out per the specification's EigFile through evec_load",
+            "Exhaustive on small integer overlap matrices in both model and implementation; constructed cases cover real/complex unitary bases with permutations, phases and <= 5 % perturbation up to n = 60; the conversion restores orthonormal rows for random masses; generated matdyn files (1-6 q-points, 3-60 modes) are compared number by number.",
+            "Trusted: numpy QR/unitary generation and norms in the harness; matdyn line formats as rendered by the harness.",
+            "DESIGN.md section 4 C20"),
 }
 
 NOT_YET = {
